@@ -881,12 +881,17 @@ def gen_regrid(rng, tier):
             n1 = [rng.choice([9, 12, 17, 25, 33]), rng.choice([9, 12, 17, 25, 33])]
             same_domain = rng.random() < 0.5
         dense = cls not in ("ffd", "svffd")
+        flag_only = dense and rng.random() < 0.25
+        if flag_only:
+            # the new grid is the old one with the OTHER align_corners flag only (Grid.__eq__ calls them equal): the vectors
+            # still have to be re-expressed in the other cube convention
+            n1, same_domain = None, True
         yield {"cls": cls, "kind": rng.choice(["param", "buffer"]), "n0": [n0, rng.choice([n0, n0 + 4])], "n1": n1,
                "same_domain": same_domain, "seed": rng.randrange(1 << 30), "shrink": round(rng.uniform(0.6, 0.95), 2),
                # sampling convention of the old / new grid (dense models; B-spline control grids keep corners aligned)
                "ac0": (rng.random() < 0.6) if dense else True, "ac1": (rng.random() < 0.6) if dense else True,
                # a field that is linear in the coordinates is reproduced exactly by linear resampling
-               "linear": dense and rng.random() < 0.5}
+               "linear": dense and rng.random() < 0.5, "flag_only": flag_only}
 
 
 def regrid_tol(fam: str, nmin: int) -> float:
@@ -908,6 +913,9 @@ def check_regrid(c):
     ctor, kw = CTOR[c["cls"]]
     n0 = c["n0"] if c["cls"] not in ("ffd", "svffd") else [c["n0"][0], c["n0"][0]]
     ac0, ac1 = bool(c.get("ac0", True)), bool(c.get("ac1", True))
+    if c.get("flag_only"):
+        c = dict(c, n1=list(n0))
+        ac1 = not ac0
     g0 = Grid(size=tuple(n0), spacing=tuple(8.0 / (n - 1) for n in n0), align_corners=ac0)
     if c["same_domain"]:
         g1 = Grid(size=tuple(c["n1"]), spacing=tuple(8.0 / (n - 1) for n in c["n1"]), align_corners=ac1)
